@@ -13,6 +13,11 @@ class Unsupported(Exception):
     pass
 
 
+class Ambiguous(Exception):
+    """the value hinges on a discontinuity within rounding distance (comparison of nearly equal operands, floor at an integer):
+    numpy's and Python's pow/exp may differ in the last bit, so neither outcome can be called wrong"""
+
+
 def _div(a, b):
     if a == 0:
         return 0.0
@@ -121,11 +126,17 @@ def evaluate(s, env):
         if isinstance(n, ast.Compare):
             if len(n.ops) != 1:
                 raise Unsupported("chained comparison")
-            return 1.0 if CMP[type(n.ops[0])](ev(n.left), ev(n.comparators[0])) else 0.0
+            a, b = ev(n.left), ev(n.comparators[0])
+            if a != b and math.isfinite(a) and math.isfinite(b) and abs(a - b) <= 1e-9 * max(1.0, abs(a), abs(b)):
+                raise Ambiguous("comparison of %r and %r" % (a, b))
+            return 1.0 if CMP[type(n.ops[0])](a, b) else 0.0
         if isinstance(n, ast.Call):
             if not isinstance(n.func, ast.Name) or n.func.id not in FUNCS or n.keywords:
                 raise Unsupported("call")
-            return float(FUNCS[n.func.id](*[ev(a) for a in n.args]))
+            args = [ev(a) for a in n.args]
+            if n.func.id == "floor" and math.isfinite(args[0]) and args[0] != round(args[0]) and abs(args[0] - round(args[0])) <= 1e-9 * max(1.0, abs(args[0])):
+                raise Ambiguous("floor of %r" % args[0])
+            return float(FUNCS[n.func.id](*args))
         raise Unsupported(type(n).__name__)
 
     return ev(tree)
